@@ -57,7 +57,9 @@ Definition slices2 := (zslice * zslice)%type.       (* (y slice, x slice) *)
 
 (* BoundingBox.get_overlap_slices(shape = (ny, nx)): (slices_large, slices_small) or None *)
 Definition overlap_slices (b : bbox) (ny nx : Z) : option (slices2 * slices2) :=
-  if (ixmin b >=? nx) || (iymin b >=? ny) || (ixmax b <=? 0) || (iymax b <=? 0) then None
+  if (ixmin b >=? nx) || (iymin b >=? ny) || (ixmax b <=? 0) || (iymax b <=? 0)
+     || (ny <=? 0) || (nx <=? 0)     (* zero-size image: repo fix 90cea4c *)
+  then None
   else Some (((Z.max (iymin b) 0, Z.min (iymax b) ny),
               (Z.max (ixmin b) 0, Z.min (ixmax b) nx)),
              ((Z.max (- iymin b) 0, Z.min (iymax b - iymin b) (ny - iymin b)),
